@@ -388,6 +388,18 @@ def collect(F, fn_path, tag="", inline_pred=None, facts_hook=None, loop_k=1, ren
                     continue
                 op, cv, ops, tys = e[4]
                 ok, why = discharge_assert(kind, op, ops, tys, lin, iv, get_facts)
+                sfn = F.fns.get(site[0]) if site else None
+                if not ok and kind == "overflow" and op == "Sub" and len(ops) == 2 and sfn is not None and sfn.get("impl_self") \
+                        and sfn["locals"][1:2] and sfn["locals"][1].startswith("&") and not sfn["locals"][1].startswith("&mut"):
+                    a0 = expand(ops[0])
+                    b0 = expand(ops[1])
+                    la = a0[1] if a0[0] == "sym" else None
+                    base = la[1] if (la and la[0] == "len") else (la[2][0] if (la and la[0] == "call" and la[1].endswith("::len") and la[2]) else None)
+                    if base is not None and is_self_payload(expand(base)) and b0[0] == "c":
+                        dsc = "overflow:Sub[payload:len-%d]" % b0[1]
+                        note("assert", dsc, site, "open", why + " (representation invariant of %s)" % sfn["impl_self"].split("::")[-1], p)
+                        sites[(site[0], site[1], "assert", dsc)].type_owner = short_fn(sfn["impl_self"].split("<")[0])
+                        continue
                 note("assert", "%s%s" % (kind, (":" + op) if op else ""), site, "discharged" if ok else "open", why, p,
                      detail=",".join(producer(x) for x in ops) if not ok else None)
             elif e[0] == "unwrap":
@@ -415,7 +427,16 @@ def collect(F, fn_path, tag="", inline_pred=None, facts_hook=None, loop_k=1, ren
                 callee = e[1]
                 if EXT_INDEX.search(callee):
                     ok, why = discharge_index(e, lin, expand, get_facts)
-                    note("index", index_desc(e, expand), e[5], "discharged" if ok else "open", why, p)
+                    shp = None if ok else payload_shape(e, expand)
+                    sfn = F.fns.get(e[5][0]) if e[5] else None
+                    if shp is not None and sfn is not None and sfn.get("impl_self") and sfn["locals"][1:2] and sfn["locals"][1].startswith("&") \
+                            and not sfn["locals"][1].startswith("&mut") and sfn["impl_self"].split("<")[0] in sfn["locals"][1]:
+                        # an index into the byte payload of `&self`, bounded by the length prefix stored in that payload: a site
+                        # of the value type's representation invariant, identified by the type and the shape of the range
+                        note("index", "index[payload:%s]" % shp, e[5], "open", why + " (representation invariant of %s)" % sfn["impl_self"].split("::")[-1], p)
+                        sites[(e[5][0], e[5][1], "index", "index[payload:%s]" % shp)].type_owner = short_fn(sfn["impl_self"].split("<")[0])
+                    else:
+                        note("index", index_desc(e, expand), e[5], "discharged" if ok else "open", why, p)
                 elif callee.endswith("::copy_from_slice"):
                     a = lin.len_of(e[3][0]) if e[3] else None
                     b = lin.len_of(e[3][1]) if len(e[3]) > 1 else None
@@ -499,6 +520,8 @@ def collect(F, fn_path, tag="", inline_pred=None, facts_hook=None, loop_k=1, ren
         # which it is reached, not by the (possibly private helper) function that contains it
         where = fn_path if o.kind == "panic" else owner_fn(F, o.fn, fn_path)
         o.key = "%s|%s|%s|#%d" % (short_fn(where), o.kind, desc, n) if o.status != "discharged" else o.key_old
+        if getattr(o, "type_owner", None) and o.status != "discharged":
+            o.key = "type:%s|%s|%s" % (o.type_owner, o.kind, desc)       # wherever the accessor code lives
     return obs, {"paths": len(ps)}
 
 
@@ -633,6 +656,95 @@ def discharge_conversion(v, lin, expand, get_facts):
     f = get_facts()
     ok = linear.entails(f, linear.lin_add(ln, linear.const(m), -1)) and linear.entails(f, linear.lin_add(linear.const(m), ln, -1))
     return ok, "len(slice) == %d proved (D2): conversion to [u8; %d] cannot fail" % (m, m)
+
+
+def eval_term(v, env):
+    """Integer value of a term under an assignment of the payload bytes (env: index -> int); None when not evaluable."""
+    if not isinstance(v, tuple) or not v:
+        return None
+    k = v[0]
+    if k == "c":
+        return v[1] if isinstance(v[1], int) else None
+    if k == "sym":
+        return eval_term(v[1], env)
+    if k == "bin":
+        a, b = eval_term(v[2], env), eval_term(v[3], env)
+        if a is None or b is None:
+            return None
+        op = v[1].replace("WithOverflow", "").replace("Unchecked", "")
+        try:
+            return {"Add": a + b, "Sub": a - b, "Mul": a * b, "BitOr": a | b, "BitAnd": a & b, "BitXor": a ^ b,
+                    "Shl": a << b if 0 <= b < 128 else None, "Shr": a >> b if 0 <= b < 128 else None}.get(op)
+        except (TypeError, ValueError):
+            return None
+    if k == "field" and v[2] == 0 and isinstance(v[1], tuple) and v[1] and v[1][0] == "bin":
+        return eval_term(v[1], env)
+    if k == "cast":
+        a = eval_term(v[1], env)
+        r = explore.int_range(v[2]) if a is not None else None
+        return (a & r[1]) if (a is not None and r and r[0] == 0 and r[1] is not None) else a
+    if k == "into":
+        return eval_term(v[1], env)
+    if k == "index" and len(v) > 2 and isinstance(v[2], int) and is_self_payload(("sym", v[1]) if not (isinstance(v[1], tuple) and v[1] and v[1][0] == "sym") else v[1]):
+        return env.get(v[2])
+    if k == "call" and v[2]:
+        nm = v[1].split("::")[-1]
+        if nm in ("from_be_bytes", "from_le_bytes"):
+            a0 = v[2][0]
+            els = a0[1] if (isinstance(a0, tuple) and a0 and a0[0] == "arr") else None
+            if els is None:
+                return None
+            bs = [eval_term(x, env) for x in els]
+            if any(b is None for b in bs):
+                return None
+            return int.from_bytes(bytes(b & 0xFF for b in bs), "big" if nm == "from_be_bytes" else "little")
+        if nm in ("into", "from") and len([x for x in v[2] if not (isinstance(x, tuple) and x and x[0] == "targs")]) == 1:
+            return eval_term(v[2][0], env)
+    return None
+
+
+def is_self_payload(v):
+    """The payload of `self` (field 0 of the variant the method matched on), possibly behind a deref."""
+    t = v[1] if (isinstance(v, tuple) and v and v[0] == "sym") else v
+    if isinstance(t, tuple) and len(t) == 3 and t[0] == "init" and isinstance(t[1], tuple) and t[1] and t[1][0] == "D" and t[2] == ():
+        t = t[1][1]            # what a returned reference points to
+    for _ in range(3):
+        if isinstance(t, tuple) and t and t[0] == "call" and t[2] and t[1].split("::")[-1] in ("deref", "as_ref", "as_slice", "borrow"):
+            a0 = t[2][0]
+            t = a0[1] if (isinstance(a0, tuple) and a0 and a0[0] == "sym") else a0
+    if isinstance(t, tuple) and len(t) == 3 and t[0] == "field" and t[2] == 0 and t[1] == ("init", ("self",), ()):
+        return True
+    # the encoded bytes of `self` through its own accessor (`self.as_bytes()[2..]`): the same bytes, the same invariant
+    return isinstance(t, tuple) and len(t) == 3 and t[0] == "call" and t[1].split("::")[-1] == "as_bytes" and len(t[2]) == 1 \
+        and t[2][0] in (("sym", ("init", ("self",), ())), ("init", ("self",), ()))
+
+
+def payload_shape(e, expand):
+    """For an index into the byte payload of `self`: the range written over P = the big-endian value of the payload's first
+    two bytes (whatever the spelling of that decoding): '2..2+P', '..2+P', '2..', '..P' ...  None when the base is not
+    the payload or a bound is not an affine function of P."""
+    if len(e[3]) < 2 or not is_self_payload(expand(e[3][0])):
+        return None
+    rng = expand(e[3][1])
+
+    def bound(v):
+        v1 = eval_term(v, {0: 1, 1: 2})       # P = 258
+        v2 = eval_term(v, {0: 0, 1: 7})       # P = 7
+        v3 = eval_term(v, {0: 3, 1: 0})       # P = 768
+        if v1 is None or v2 is None or v3 is None:
+            return None
+        for kq in (0, 1):
+            c = v2 - 7 * kq
+            if v1 == c + 258 * kq and v3 == c + 768 * kq:
+                return ("%d+P" % c if c else "P") if kq else str(c)
+        return None
+    if rng[0] == "agg" and rng[2] in ("Range", "RangeTo", "RangeFrom", "RangeToInclusive"):
+        bs = [bound(x) for x in rng[3]]
+        if any(b is None for b in bs):
+            return None
+        return {"Range": "%s..%s", "RangeTo": "..%s", "RangeFrom": "%s..", "RangeToInclusive": "..=%s"}[rng[2]] % tuple(bs)
+    b = bound(rng)
+    return b
 
 
 def index_desc(e, expand):
